@@ -1,1 +1,291 @@
-//! (stub)
+//! ITF8 / LTF8 (CRAM 3.0 §2.3 "Writing bytes to a byte stream") and uint7 (CRAM codecs, "variable
+//! sized unsigned integers, 7 bits at a time, most significant group first") written from the
+//! specification text, independently of noodles.
+//!
+//! ITF8: the number of leading 1 bits of the first byte gives the number of bytes that follow
+//! (0..4). The value bits of the first byte are the most significant ones. In the 5-byte form the
+//! first byte carries bits 31..28 and **only the low 4 bits of the fifth byte are used** (bits 3..0).
+//! LTF8: the same scheme with up to 8 following bytes; the 9-byte form is `0xff` followed by the 64
+//! bits big-endian. Negative numbers are encoded through their two's-complement bit pattern, so they
+//! always take the longest form.
+
+/// Encode the 32-bit pattern of `v` as ITF8.
+pub fn itf8_encode(v: i32) -> Vec<u8> {
+    let u = v as u32;
+    if u < 0x80 {
+        vec![u as u8]
+    } else if u < 0x4000 {
+        vec![0x80 | (u >> 8) as u8, u as u8]
+    } else if u < 0x20_0000 {
+        vec![0xc0 | (u >> 16) as u8, (u >> 8) as u8, u as u8]
+    } else if u < 0x1000_0000 {
+        vec![0xe0 | (u >> 24) as u8, (u >> 16) as u8, (u >> 8) as u8, u as u8]
+    } else {
+        vec![0xf0 | (u >> 28) as u8, (u >> 20) as u8, (u >> 12) as u8, (u >> 4) as u8, (u & 0x0f) as u8]
+    }
+}
+
+/// Number of bytes of the canonical ITF8 form.
+pub fn itf8_len(v: i32) -> usize {
+    let u = v as u32;
+    match u {
+        0..=0x7f => 1,
+        0x80..=0x3fff => 2,
+        0x4000..=0x1f_ffff => 3,
+        0x20_0000..=0x0fff_ffff => 4,
+        _ => 5,
+    }
+}
+
+/// Decode one ITF8 value; returns the value and the number of bytes consumed.
+pub fn itf8_decode(b: &[u8]) -> Result<(i32, usize), String> {
+    let b0 = *b.first().ok_or("itf8: empty")? as u32;
+    let extra = (b0 as u8).leading_ones().min(4) as usize;
+    if b.len() < 1 + extra {
+        return Err(format!("itf8: need {} bytes, have {}", 1 + extra, b.len()));
+    }
+    let u: u32 = match extra {
+        0 => b0,
+        1 => ((b0 & 0x3f) << 8) | b[1] as u32,
+        2 => ((b0 & 0x1f) << 16) | (b[1] as u32) << 8 | b[2] as u32,
+        3 => ((b0 & 0x0f) << 24) | (b[1] as u32) << 16 | (b[2] as u32) << 8 | b[3] as u32,
+        _ => ((b0 & 0x0f) << 28) | (b[1] as u32) << 20 | (b[2] as u32) << 12 | (b[3] as u32) << 4 | (b[4] as u32 & 0x0f),
+    };
+    Ok((u as i32, 1 + extra))
+}
+
+/// Encode the 64-bit pattern of `v` as LTF8.
+pub fn ltf8_encode(v: i64) -> Vec<u8> {
+    let u = v as u64;
+    // the form with k following bytes holds 7 + 7k value bits for k = 0..7 (prefix of k ones and a
+    // zero), and the k = 8 form holds all 64
+    for k in 0..8u32 {
+        let bits = 7 + 7 * k;
+        if u >> bits == 0 {
+            let mut out = Vec::with_capacity(1 + k as usize);
+            let prefix: u8 = if k == 0 { 0 } else { (0xffu16 << (8 - k)) as u8 };
+            let first_bits = if k == 7 { 0 } else { (u >> (8 * k)) as u8 };
+            out.push(prefix | first_bits);
+            for i in (0..k).rev() {
+                out.push((u >> (8 * i)) as u8);
+            }
+            return out;
+        }
+    }
+    let mut out = vec![0xff];
+    out.extend_from_slice(&u.to_be_bytes());
+    out
+}
+
+pub fn ltf8_len(v: i64) -> usize {
+    let u = v as u64;
+    for k in 0..8u32 {
+        if u >> (7 + 7 * k) == 0 {
+            return 1 + k as usize;
+        }
+    }
+    9
+}
+
+pub fn ltf8_decode(b: &[u8]) -> Result<(i64, usize), String> {
+    let b0 = *b.first().ok_or("ltf8: empty")?;
+    let extra = b0.leading_ones() as usize; // 0..=8
+    if b.len() < 1 + extra {
+        return Err(format!("ltf8: need {} bytes, have {}", 1 + extra, b.len()));
+    }
+    let mut u: u64 = if extra >= 7 { 0 } else { (b0 & (0x7f >> extra)) as u64 };
+    for x in &b[1..1 + extra] {
+        u = (u << 8) | *x as u64;
+    }
+    Ok((u as i64, 1 + extra))
+}
+
+/// uint7: big-endian groups of 7 bits, the top bit of every byte but the last is set.
+pub fn uint7_encode(v: u32) -> Vec<u8> {
+    let mut groups = vec![(v & 0x7f) as u8];
+    let mut rest = v >> 7;
+    while rest > 0 {
+        groups.push(0x80 | (rest & 0x7f) as u8);
+        rest >>= 7;
+    }
+    groups.reverse();
+    groups
+}
+
+pub fn uint7_len(v: u32) -> usize {
+    match v {
+        0..=0x7f => 1,
+        0x80..=0x3fff => 2,
+        0x4000..=0x1f_ffff => 3,
+        0x20_0000..=0x0fff_ffff => 4,
+        _ => 5,
+    }
+}
+
+pub fn uint7_decode(b: &[u8]) -> Result<(u32, usize), String> {
+    let mut v: u64 = 0;
+    for (i, x) in b.iter().enumerate() {
+        v = (v << 7) | (*x & 0x7f) as u64;
+        if v > u32::MAX as u64 {
+            return Err("uint7: value exceeds 32 bits".into());
+        }
+        if x & 0x80 == 0 {
+            return Ok((v as u32, i + 1));
+        }
+        if i >= 4 {
+            return Err("uint7: more than 5 bytes".into());
+        }
+    }
+    Err("uint7: truncated".into())
+}
+
+/// Pins: the literal vectors of noodles' unit tests (`io/{reader,writer}/num/{itf8,ltf8,vlq}.rs`,
+/// transcribed) plus length-class boundary values worked out by hand from the layout in the
+/// specification. A mismatch means the reference must not be trusted (the caller turns it into a
+/// harness error).
+pub fn self_test() -> Result<(), String> {
+    let itf8: &[(i32, &[u8])] = &[
+        (0, &[0x00]),
+        (87, &[0x57]),
+        (127, &[0x7f]),
+        (128, &[0x80, 0x80]),
+        (626, &[0x82, 0x72]),
+        (16383, &[0xbf, 0xff]),
+        (16384, &[0xc0, 0x40, 0x00]),
+        (439, &[0x81, 0xb7]),
+        (2097151, &[0xdf, 0xff, 0xff]),
+        (2097152, &[0xe0, 0x20, 0x00, 0x00]),
+        (268435455, &[0xef, 0xff, 0xff, 0xff]),
+        (268435456, &[0xf1, 0x00, 0x00, 0x00, 0x00]),
+        (i32::MAX, &[0xf7, 0xff, 0xff, 0xff, 0x0f]),
+        (i32::MIN, &[0xf8, 0x00, 0x00, 0x00, 0x00]),
+        (-1, &[0xff, 0xff, 0xff, 0xff, 0x0f]),
+        // noodles unit tests
+        (1877, &[0x87, 0x55]),
+        (480665, &[0xc7, 0x55, 0x99]),
+        (123050342, &[0xe7, 0x55, 0x99, 0x66]),
+        (1968805474, &[0xf7, 0x55, 0x99, 0x66, 0x02]),
+    ];
+    // the high nibble of the fifth byte is ignored on reading
+    for last in [0x12u8, 0x22, 0x42, 0x82, 0xf2] {
+        if itf8_decode(&[0xf7, 0x55, 0x99, 0x66, last])? != (1968805474, 5) {
+            return Err("itf8_decode: high nibble of byte 5 must be ignored".into());
+        }
+    }
+    for (v, bytes) in itf8 {
+        if itf8_encode(*v) != *bytes {
+            return Err(format!("itf8_encode({v}) = {:02x?}, pinned {:02x?}", itf8_encode(*v), bytes));
+        }
+        if itf8_decode(bytes)? != (*v, bytes.len()) {
+            return Err(format!("itf8_decode({bytes:02x?}) != {v}"));
+        }
+        if itf8_len(*v) != bytes.len() {
+            return Err(format!("itf8_len({v})"));
+        }
+    }
+    let ltf8: &[(i64, &[u8])] = &[
+        (0, &[0x00]),
+        (85, &[0x55]),
+        (127, &[0x7f]),
+        (128, &[0x80, 0x80]),
+        (16383, &[0xbf, 0xff]),
+        (16384, &[0xc0, 0x40, 0x00]),
+        (2097151, &[0xdf, 0xff, 0xff]),
+        (2097152, &[0xe0, 0x20, 0x00, 0x00]),
+        (268435455, &[0xef, 0xff, 0xff, 0xff]),
+        (268435456, &[0xf0, 0x10, 0x00, 0x00, 0x00]),
+        (34359738367, &[0xf7, 0xff, 0xff, 0xff, 0xff]),
+        (34359738368, &[0xf8, 0x08, 0x00, 0x00, 0x00, 0x00]),
+        (4398046511103, &[0xfb, 0xff, 0xff, 0xff, 0xff, 0xff]),
+        (4398046511104, &[0xfc, 0x04, 0x00, 0x00, 0x00, 0x00, 0x00]),
+        (562949953421311, &[0xfd, 0xff, 0xff, 0xff, 0xff, 0xff, 0xff]),
+        (562949953421312, &[0xfe, 0x02, 0x00, 0x00, 0x00, 0x00, 0x00, 0x00]),
+        (72057594037927935, &[0xfe, 0xff, 0xff, 0xff, 0xff, 0xff, 0xff, 0xff]),
+        (72057594037927936, &[0xff, 0x01, 0x00, 0x00, 0x00, 0x00, 0x00, 0x00, 0x00]),
+        (-1, &[0xff, 0xff, 0xff, 0xff, 0xff, 0xff, 0xff, 0xff, 0xff]),
+        (i64::MIN, &[0xff, 0x80, 0x00, 0x00, 0x00, 0x00, 0x00, 0x00, 0x00]),
+        // noodles unit tests
+        (170, &[0x80, 0xaa]),
+        (21930, &[0xc0, 0x55, 0xaa]),
+        (5614284, &[0xe0, 0x55, 0xaa, 0xcc]),
+        (1437256755, &[0xf0, 0x55, 0xaa, 0xcc, 0x33]),
+        (367937729507, &[0xf8, 0x55, 0xaa, 0xcc, 0x33, 0xe3]),
+        (94192058753820, &[0xfc, 0x55, 0xaa, 0xcc, 0x33, 0xe3, 0x1c]),
+        (24113167040978160, &[0xfe, 0x55, 0xaa, 0xcc, 0x33, 0xe3, 0x1c, 0xf0]),
+        (6172970762490408975, &[0xff, 0x55, 0xaa, 0xcc, 0x33, 0xe3, 0x1c, 0xf0, 0x0f]),
+        (-170, &[0xff, 0xff, 0xff, 0xff, 0xff, 0xff, 0xff, 0xff, 0x56]),
+    ];
+    for (v, bytes) in ltf8 {
+        if ltf8_encode(*v) != *bytes {
+            return Err(format!("ltf8_encode({v}) = {:02x?}, pinned {:02x?}", ltf8_encode(*v), bytes));
+        }
+        if ltf8_decode(bytes)? != (*v, bytes.len()) {
+            return Err(format!("ltf8_decode({bytes:02x?}) != {v}"));
+        }
+        if ltf8_len(*v) != bytes.len() {
+            return Err(format!("ltf8_len({v})"));
+        }
+    }
+    let uint7: &[(u32, &[u8])] = &[
+        (0, &[0x00]),
+        (127, &[0x7f]),
+        (128, &[0x81, 0x00]),
+        (300, &[0x82, 0x2c]),
+        (16383, &[0xff, 0x7f]),
+        (16384, &[0x81, 0x80, 0x00]),
+        (2097151, &[0xff, 0xff, 0x7f]),
+        (2097152, &[0x81, 0x80, 0x80, 0x00]),
+        (268435455, &[0xff, 0xff, 0xff, 0x7f]),
+        (268435456, &[0x81, 0x80, 0x80, 0x80, 0x00]),
+        (u32::MAX, &[0x8f, 0xff, 0xff, 0xff, 0x7f]),
+        // noodles unit tests (Wikipedia VLQ examples)
+        (8192, &[0xc0, 0x00]),
+        (134217728, &[0xc0, 0x80, 0x80, 0x00]),
+    ];
+    for (v, bytes) in uint7 {
+        if uint7_encode(*v) != *bytes {
+            return Err(format!("uint7_encode({v}) = {:02x?}, pinned {:02x?}", uint7_encode(*v), bytes));
+        }
+        if uint7_decode(bytes)? != (*v, bytes.len()) {
+            return Err(format!("uint7_decode({bytes:02x?}) != {v}"));
+        }
+        if uint7_len(*v) != bytes.len() {
+            return Err(format!("uint7_len({v})"));
+        }
+    }
+    Ok(())
+}
+
+/// Allocation-free forms for the exhaustive sweeps: bytes in a fixed array plus the length.
+pub fn itf8_bytes(v: i32) -> ([u8; 5], usize) {
+    let u = v as u32;
+    if u < 0x80 {
+        ([u as u8, 0, 0, 0, 0], 1)
+    } else if u < 0x4000 {
+        ([0x80 | (u >> 8) as u8, u as u8, 0, 0, 0], 2)
+    } else if u < 0x20_0000 {
+        ([0xc0 | (u >> 16) as u8, (u >> 8) as u8, u as u8, 0, 0], 3)
+    } else if u < 0x1000_0000 {
+        ([0xe0 | (u >> 24) as u8, (u >> 16) as u8, (u >> 8) as u8, u as u8, 0], 4)
+    } else {
+        ([0xf0 | (u >> 28) as u8, (u >> 20) as u8, (u >> 12) as u8, (u >> 4) as u8, (u & 0x0f) as u8], 5)
+    }
+}
+
+pub fn uint7_bytes(v: u32) -> ([u8; 5], usize) {
+    let n = uint7_len(v);
+    let mut out = [0u8; 5];
+    for i in 0..n {
+        let shift = 7 * (n - 1 - i) as u32;
+        let g = ((v >> shift) & 0x7f) as u8;
+        out[i] = if i + 1 < n { g | 0x80 } else { g };
+    }
+    (out, n)
+}
+
+pub fn ltf8_bytes(v: i64) -> ([u8; 9], usize) {
+    let e = ltf8_encode(v);
+    let mut out = [0u8; 9];
+    out[..e.len()].copy_from_slice(&e);
+    (out, e.len())
+}
